@@ -24,8 +24,20 @@ fn main() {
     vcommon::mon::quiet_panics();
     let r = std::panic::catch_unwind(std::panic::AssertUnwindSafe(|| run(&args, &mut mon)));
     if r.is_err() {
-        eprintln!("HARNESS PANIC escaped every monitor: {}", vcommon::mon::last_panic());
-        std::process::exit(3);
+        let msg = vcommon::mon::last_panic();
+        // These monitors only feed inputs that meet the documented preconditions, so a panic raised inside the crate
+        // (e.g. a glam_assert! in a glam-assert build, a NaN-bounded clamp) is a violation of the property being
+        // monitored; a panic located in the harness itself is a harness defect (infrastructure error).
+        let loc = msg.lines().next().unwrap_or("").to_string();
+        if loc.contains("/harness/") || loc.contains("/verif/") && !loc.contains("/repo") {
+            eprintln!("HARNESS PANIC escaped every monitor: {}", msg);
+            std::process::exit(3);
+        }
+        if let Some(mut c) = mon.begin_unsharded("panic", "a call on valid inputs panicked inside the crate") {
+            c.event(0, true);
+            c.violation("panic_on_valid_input", &["escaped"], format!("{} monitor, config {}, seed {}, shard {}/{}", args.prop, mon.config, mon.seed, mon.shard.0, mon.shard.1), msg.clone(), "no panic".into(), "the monitor stopped at the first panic; the inputs of the interrupted operation are those of the next event of this shard".into());
+            mon.end(c);
+        }
     }
     args.finish(&mon);
 }
